@@ -478,7 +478,7 @@ std::string model_json(z3::model& m)
         std::string dec;
         try
         {
-            dec = v.get_decimal_string(25);
+            dec = v.get_decimal_string(90);
         }
         catch (z3::exception&)
         {
